@@ -126,6 +126,8 @@ mod raw {
 
             let mut stdout_ref = self.stdout.as_ref();
             let mut stderr_ref = self.stderr.as_ref();
+            // set after a round of I/O that ended past the deadline
+            let mut timed_out = false;
 
             loop {
                 if let Some(size_limit) = size_limit {
@@ -137,6 +139,12 @@ mod raw {
                 if let (None, None, None) = (self.stdin.as_ref(), stdout_ref, stderr_ref) {
                     // When no stream remains, we are done.
                     break;
+                }
+
+                if timed_out {
+                    // Streams that are ready on every iteration must not keep
+                    // us reading past the deadline.
+                    return Err(io::Error::new(io::ErrorKind::TimedOut, "timeout"));
                 }
 
                 let (in_ready, out_ready, err_ready) =
@@ -171,6 +179,9 @@ mod raw {
                         size_limit,
                         outvec.len() + errvec.len(),
                     )?;
+                }
+                if let Some(deadline) = deadline {
+                    timed_out = Instant::now() >= deadline;
                 }
             }
 
